@@ -97,6 +97,20 @@ func PadFailedActivityEvent(f protoreflect.FieldDescriptor) protoreflect.Message
 	return ev
 }
 
+// PadUnmappedSAEvent: an UpsertWorkflowSearchAttributes event whose search attributes hold only a key that no mapping
+// mentions (a container with nothing to rename next to the one on the path).
+func PadUnmappedSAEvent(f protoreflect.FieldDescriptor) protoreflect.Message {
+	if f.Message().FullName() != HistoryEventName {
+		return nil
+	}
+	ev := NewMessage(f.Message())
+	ev.Set(f.Message().Fields().ByName("event_type"), protoreflect.ValueOfEnum(22)) // UPSERT_WORKFLOW_SEARCH_ATTRIBUTES
+	ev.Set(f.Message().Fields().ByName("event_id"), protoreflect.ValueOfInt64(4))
+	attrs := ev.Mutable(f.Message().Fields().ByName("upsert_workflow_search_attributes_event_attributes")).Message()
+	SetSA(attrs, attrs.Descriptor().Fields().ByName("search_attributes"), []string{"other-attr"}, "local")
+	return ev
+}
+
 // PathEventType returns the name of the event type a path goes through ("" if none).
 func PathEventType(p Path) string {
 	et := ""
